@@ -680,6 +680,46 @@ func histListChecks(prop string, h *histList) string {
 			if p := l.Prod(); p != prod && !(math.IsNaN(p) && math.IsNaN(prod)) {
 				return fmt.Sprintf("Prod = %v, reference fold gives %v", p, prod)
 			}
+			// the aggregates were just computed: change the list in every way that keeps it numeric and ask again
+			fold := func(m []any) (float64, float64, int) {
+				s, p, is := 0.0, 1.0, 0
+				for _, v := range m {
+					switch x := v.(type) {
+					case int:
+						s += float64(x)
+						p *= float64(x)
+						is += x
+					case float64:
+						s += x
+						p *= x
+					}
+				}
+				return s, p, is
+			}
+			m := append([]any{}, model...)
+			steps := []struct {
+				name string
+				f    func()
+			}{
+				{"Insert(mid)", func() { i := len(m) / 2; l.Insert(i, 7); m = append(m[:i:i], append([]any{7}, m[i:]...)...) }},
+				{"Insert(0)", func() { l.Insert(0, 0.25); m = append([]any{0.25}, m...) }},
+				{"Reverse", func() {
+					l.Reverse()
+					for i, j := 0, len(m)-1; i < j; i, j = i+1, j-1 {
+						m[i], m[j] = m[j], m[i]
+					}
+				}},
+				{"SetTF", func() { l.SetTF("#0", 3); m[0] = 3 }},
+				{"Pop", func() { l.Pop(); m = m[:len(m)-1] }},
+				{"UnsetTF", func() { l.UnsetTF("#0"); m = m[1:] }},
+			}
+			for _, st := range steps {
+				st.f()
+				ws, wp, wi := fold(m)
+				if gs, gp, gi, ga := l.Sum(), l.Prod(), l.IntSum(), l.Avg(); gs != ws || gp != wp || gi != wi || (len(m) > 0 && ga != ws/float64(len(m))) {
+					return fmt.Sprintf("after %s (aggregates computed before): Sum/Prod/IntSum/Avg = %v/%v/%v/%v, reference folds give %v/%v/%v/%v", st.name, gs, gp, gi, ga, ws, wp, wi, ws/float64(len(m)))
+				}
+			}
 		}
 	case "C17":
 		homog := len(model) > 0
